@@ -287,7 +287,7 @@ def gen_case(rng, tier):
     other = None
     if rng.random() < 0.3:
         other = gen_program(rng)[0]          # an unrelated build interleaved between the builds of the history
-    return {'code': code, 'kind': kind, 'spelling': spelling, 'builds': builds, 'used': used, 'other': other, 'key': rng.choice(['result', 'deep'])}
+    return {'route': rng.choice(['config', 'config', 'ctx']), 'code': code, 'kind': kind, 'spelling': spelling, 'builds': builds, 'used': used, 'other': other, 'key': rng.choice(['result', 'deep'])}
 
 
 def symbols(sym):
@@ -347,7 +347,10 @@ def run(case):
         exp = native(case['code'], case['kind'], case['spelling'], b['cfg'], b['sym'])
         text = build_text(case, b)
         ctx = EvalContext(eval_symbols=symbols(b['sym']))
-        got = lib.outcome(lambda: Config.build(text, raw_yaml=True, filename=b['filename'], eval_ctx=ctx))
+        if case.get('route') == 'ctx':
+            got = lib.outcome(lambda: lib.build_via([text], 'ctx', filenames=b['filename'], eval_ctx=ctx))
+        else:
+            got = lib.outcome(lambda: Config.build(text, raw_yaml=True, filename=b['filename'], eval_ctx=ctx))
         feats.append('expect_' + exp[0] + ('' if exp[0] == 'ok' else '_' + exp[1]))
         feats.append('with_filename' if b['filename'] else 'no_filename')
         where = f'build {bi + 1}/{len(case["builds"])} cfg={b["cfg"]} symbols={b["sym"]} filename={b["filename"]!r} code={case["code"]!r} spelling={case["spelling"]}'
